@@ -387,6 +387,7 @@ def normalise(F, fn, keep=(), depth=3, _stack=()):
         return fn
     if not _stack:
         thread_try(B)
+        thread_bool(B)
     out = facts.Fn(B.raw, fn.crate)
     out.inlined_ids = tuple(B.ids)
     return out
@@ -489,6 +490,90 @@ def thread_try(B):
                 jt = dict(t)
                 jt["target"] = t_new
                 nxt = B.block(list(bj["stmts"]), jt)
+                for cidx in reversed(chain):
+                    cb = blocks[cidx]
+                    nxt = B.block(list(cb["stmts"]), {"k": "goto", "target": nxt, "loc": cb["term"]["loc"]})
+                pt = dict(pb["term"])
+                pt["target"] = nxt
+                pb["term"] = pt
+                done += 1
+    return done
+
+
+def thread_bool(B):
+    """A bool helper that has been put in place (`fn is_zero(x) -> bool { a == 0 || a == 0.0 }`) materialises its answer: one
+    return point writes the constant `true`, another the result of the second comparison, and the caller's `if` switches on the
+    copy.  The write of a *constant* decides the switch: it gets its own copy of the (value-preserving) blocks in between, ending
+    in the jump that constant takes, so that "reachable only when the first comparison failed" is visible again.  Nothing is
+    removed; writers of unknown values keep using the original blocks."""
+    blocks = B.raw["blocks"]
+    n0 = len(blocks)
+    preds = {}
+    for i, b in enumerate(blocks):
+        t = b["term"]
+        if t and t["k"] == "goto" and isinstance(t.get("target"), int):
+            preds.setdefault(t["target"], []).append(i)
+    done = 0
+    for sidx in range(n0):
+        sb = blocks[sidx]
+        sw = sb["term"]
+        if not sw or sw["k"] != "switch" or sb["cleanup"] or sw.get("dty") != "bool":
+            continue
+        d = place_of(sw["discr"])
+        if d is None or d["p"]:
+            continue
+        # the switched local inside S: follow copies within S back to the local live at entry
+        cur = d["l"]
+        ok = True
+        for st in reversed(sb["stmts"]):
+            if st.get("k") == "assign" and st["place"]["l"] == cur:
+                rv = st["rv"]
+                if not st["place"]["p"] and rv.get("k") == "use" and place_of(rv["a"]) is not None and not place_of(rv["a"])["p"]:
+                    cur = place_of(rv["a"])["l"]
+                else:
+                    ok = False
+                    break
+        if not ok:
+            continue
+        tmap = dict((v, tb) for v, tb in sw["targets"])
+        work = [(sidx, cur, [])]
+        seen = set()
+        while work:
+            blk, r, chain = work.pop()
+            for pidx in preds.get(blk, []):
+                if (pidx, r) in seen or len(chain) > 3 or pidx >= n0:
+                    continue
+                seen.add((pidx, r))
+                pb = blocks[pidx]
+                cur2 = r
+                val = None
+                ok2 = True
+                for st in reversed(pb["stmts"]):
+                    if st.get("k") != "assign" or st["place"]["l"] != cur2:
+                        continue
+                    if st["place"]["p"]:
+                        ok2 = False
+                        break
+                    rv = st["rv"]
+                    c = rv["a"].get("const") if rv.get("k") == "use" and isinstance(rv.get("a"), dict) else None
+                    if c is not None and c.get("ty") == "bool" and "int" in c:
+                        val = 1 if c["int"] else 0
+                        break
+                    if rv.get("k") == "use" and place_of(rv["a"]) is not None and not place_of(rv["a"])["p"]:
+                        cur2 = place_of(rv["a"])["l"]
+                        continue
+                    ok2 = False
+                    break
+                if not ok2:
+                    continue
+                if val is None:
+                    if all(st.get("k") != "assign" or (st["rv"].get("k") == "use" and not st["place"]["p"]) for st in pb["stmts"]):
+                        work.append((pidx, cur2, [pidx] + chain))
+                    continue
+                side = tmap.get(val, sw.get("otherwise"))
+                if not isinstance(side, int):
+                    continue
+                nxt = B.block(list(sb["stmts"]), {"k": "goto", "target": side, "loc": sw["loc"]})
                 for cidx in reversed(chain):
                     cb = blocks[cidx]
                     nxt = B.block(list(cb["stmts"]), {"k": "goto", "target": nxt, "loc": cb["term"]["loc"]})
